@@ -157,9 +157,22 @@ func (c *c04Collector) got(dir string, kind string, e interface{}) {
 func (c *c04Collector) consume(ctx context.Context, dir string, side c04Side, mode string, listen func(ctx context.Context, mux *lime.EnvelopeMux) error, wg *sync.WaitGroup) {
 	if mode == "mux" {
 		mux := &lime.EnvelopeMux{}
+		// two overlapping handlers per kind, as an application with a special case in front of its catch-all has them: each
+		// envelope is still delivered once
+		odd := func(id string) bool {
+			n := 0
+			for i := 0; i < len(id); i++ {
+				n += int(id[i])
+			}
+			return n%2 == 1
+		}
+		mux.MessageHandlerFunc(func(m *lime.Message) bool { return odd(m.ID) }, func(_ context.Context, m *lime.Message, _ lime.Sender) error { c.got(dir, "m", m); return nil })
 		mux.MessageHandlerFunc(nil, func(_ context.Context, m *lime.Message, _ lime.Sender) error { c.got(dir, "m", m); return nil })
+		mux.NotificationHandlerFunc(func(n *lime.Notification) bool { return odd(n.ID) }, func(_ context.Context, n *lime.Notification) error { c.got(dir, "n", n); return nil })
 		mux.NotificationHandlerFunc(nil, func(_ context.Context, n *lime.Notification) error { c.got(dir, "n", n); return nil })
+		mux.RequestCommandHandlerFunc(func(r *lime.RequestCommand) bool { return odd(r.ID) }, func(_ context.Context, r *lime.RequestCommand, _ lime.Sender) error { c.got(dir, "q", r); return nil })
 		mux.RequestCommandHandlerFunc(nil, func(_ context.Context, r *lime.RequestCommand, _ lime.Sender) error { c.got(dir, "q", r); return nil })
+		mux.ResponseCommandHandlerFunc(func(r *lime.ResponseCommand) bool { return odd(r.ID) }, func(_ context.Context, r *lime.ResponseCommand, _ lime.Sender) error { c.got(dir, "r", r); return nil })
 		mux.ResponseCommandHandlerFunc(nil, func(_ context.Context, r *lime.ResponseCommand, _ lime.Sender) error { c.got(dir, "r", r); return nil })
 		wg.Add(1)
 		go func() { defer wg.Done(); _ = listen(ctx, mux) }()
